@@ -145,6 +145,51 @@ void h_lu_zero_pivot(void)
 	    "an exactly zero pivot gives a determinant that the call sites' test rejects");
 }
 
+/*
+ * Rank decision of _vnacommon_qrsolve (what vnacal_new_solve's "singular
+ * linear system" test reads for over-determined systems).  The QR
+ * factorisation is an ASSUMED CONTRACT (_vnacommon_qrd leaves ANY diagonal of
+ * R in d); proved on the real code after it: a diagonal entry that is zero,
+ * infinite or NaN - what the factorisation leaves when a column is
+ * (numerically) dependent on the earlier ones - is never counted as rank, and
+ * every normal entry is (subnormal entries: unspecified).
+ */
+#ifdef H_QRSOLVE
+static double ghost_d[2];
+void _vnacommon_qrd(complex double *a, complex double *d, int rows, int columns)
+{
+    (void)a;
+    CHECK(rows == 3 && columns == 2, "factorisation called on the system given");
+    d[0] = ghost_d[0];
+    d[1] = ghost_d[1];
+}
+
+void h_qrsolve_rank(void)
+{
+    IN_ARR(double, dv, 2);
+    IN_ARR(double, av, 6);
+    IN_ARR(double, bv, 3);
+    double complex a[6], b[3], x[2];
+    int rank, good = 0, maybe = 0;
+
+    for (int i = 0; i < 6; ++i)
+	a[i] = av[i];
+    for (int i = 0; i < 3; ++i)
+	b[i] = bv[i];
+    for (int i = 0; i < 2; ++i) {
+	ghost_d[i] = dv[i];
+	if (isnormal(dv[i]))
+	    ++good;
+	if (dv[i] == dv[i] && dv[i] != 0.0 && dv[i] - dv[i] == 0.0)	/* finite and non-zero */
+	    ++maybe;
+    }
+    rank = _vnacommon_qrsolve(x, a, b, 3, 2, 1);
+    REACH("qrsolve returned");
+    CHECK(rank >= good, "every normal diagonal entry of R counts as rank");
+    CHECK(rank <= maybe, "a zero, infinite or NaN diagonal entry of R is never counted as rank");
+}
+#endif
+
 #ifdef VERIF_NATIVE
 int main(void) { HARNESS(); return 0; }
 #endif
